@@ -22,6 +22,7 @@ struct Focus {
     bool vptr = false;      // C09: virtual_ptr kinds, identity, histories
     bool args = false;      // C11: argument adjustment
     bool unreg = false;     // C15: unregistered class, final misuse
+    bool next = false;      // C03: next pointers written by update
 };
 
 inline Focus focus_of(const std::string& prop) {
@@ -31,6 +32,7 @@ inline Focus focus_of(const std::string& prop) {
     f.vptr = prop == "C09";
     f.args = prop == "C11";
     f.unreg = prop == "C15";
+    f.next = prop == "C03";
     return f;
 }
 
@@ -184,6 +186,36 @@ Outcome run_case(const json& c, const std::string& prop) {
     if (ue.kind != ErrorSeen::none) {
         o.fail(std::string("typed-update-error: update raised ") +
                err_name(ue) + " on a closed registry");
+        return o;
+    }
+
+    // ---- C03: next of every live definition, as written through the pointer
+    // ---- that the real add_function registered
+    if (focus.next) {
+        bool two_general = false;
+        for (std::size_t m = 0; m < eng.methods.size() && o.ok; ++m) {
+            auto& me = eng.methods[m];
+            const MethSpec& ms = s.meths[m];
+            for (std::size_t d = 0; d < ms.defs.size(); ++d) {
+                auto general = e1::more_general(s, ms, int(d));
+                two_general |= general.size() >= 2;
+                Sel sel = e1::select(s, ms, general);
+                void* want = sel.kind == K_DEF
+                    ? me.pool[ms.defs[sel.def].fn].pf
+                    : sel.kind == K_NONE ? me.info->not_implemented
+                                         : me.info->ambiguous;
+                void* got = *me.pool[ms.defs[d].fn].next;
+                if (got != want) {
+                    o.fail("typed-next: " + me.name + "[" + me.kind +
+                           "] definition " + std::to_string(ms.defs[d].fn) +
+                           ": next is not what the model selects among the "
+                           "strictly more general definitions");
+                    break;
+                }
+            }
+        }
+        o.nontrivial = two_general;
+        o.classes.push_back("typed_next");
         return o;
     }
 
